@@ -92,9 +92,13 @@ def gen_case(rng: random.Random, tier: str) -> dict:
     frames = [gen_frame(rng, rng.choice(sizes), rng.random() < 0.4, rng.random() < 0.4, rng.random() < 0.2) for _ in range(rng.randint(2, 3))]
     ops, nspec = [], 0
     for _ in range(rng.randint(8, 30)):
-        kind = rng.choice(["mm", "mm", "formula_mm", "mat_mm", "fit", "fit", "replay", "replay", "replay", "clone", "unfit", "repeat"])
+        kind = rng.choice(["mm", "mm", "formula_mm", "mat_mm", "fit", "fit", "replay", "replay", "replay", "clone", "unfit", "repeat", "set_mm", "mixed_specs"])
         out = rng.choice(["pandas", "numpy", "sparse"])
-        if kind in ("mm", "formula_mm", "mat_mm"):
+        if kind == "mixed_specs":
+            if nspec >= 2:  # a structured spec assembled by hand from two existing specs whose missing-data policies differ
+                a, b = rng.sample(range(nspec), 2)
+                ops.append({"op": "mixed_specs", "a": a, "b": b, "d": rng.randrange(len(frames)), "na": rng.choice([["ignore", "drop"], ["drop", "ignore"], ["drop", "drop"], ["raise", "drop"]])})
+        elif kind in ("mm", "formula_mm", "mat_mm", "set_mm"):
             ops.append({"op": kind, "f": rng.randrange(len(formulas)), "d": rng.randrange(len(frames)), "output": out})
         elif kind == "fit":
             ops.append({"op": "fit", "f": rng.randrange(len(formulas)), "d": rng.randrange(len(frames)), "output": out, "as": nspec})
@@ -108,7 +112,7 @@ def gen_case(rng: random.Random, tier: str) -> dict:
             ops.append({"op": "clone", "spec": rng.randrange(nspec), "how": rng.choice(["pickle", "update", "deepcopy"]), "as": nspec})
             nspec += 1
         elif kind == "repeat" and ops:
-            ops.append(dict(rng.choice([o for o in ops if o["op"] in ("mm", "formula_mm", "mat_mm", "replay")] or [ops[0]])))
+            ops.append(dict(rng.choice([o for o in ops if o["op"] in ("mm", "formula_mm", "mat_mm", "replay", "set_mm")] or [ops[0]])))
     if rng.random() < 0.4:  # the quoted column is capitalised / non-ASCII: spelling must not matter
         ren = rng.choice([{"b m": "B m", "b_m": "B_m"}, {"b m": "Ünit m", "b_m": "Ünit_m"}])
         for fr in frames:
@@ -228,6 +232,18 @@ def run_history(hist, mode):
                     res = pool.formula(op["f"]).get_model_matrix(pool.frame(op["d"]), output=op["output"], drop_rows=drop, context=pool.context())
                 elif op["op"] == "mat_mm":
                     res = pool.materializer(op["d"]).get_model_matrix(hist["formulas"][op["f"]], output=op["output"], drop_rows=drop)
+                elif op["op"] == "set_mm":  # the terms handed over as a set (an accepted formula specification)
+                    ftxt = hist["formulas"][op["f"]]
+                    spec_ = set(ftxt.split(" + ")[1:]) if "~" not in ftxt and "|" not in ftxt else ftxt
+                    res = model_matrix(spec_, pool.frame(op["d"]), output=op["output"], drop_rows=drop, context=pool.context())
+                elif op["op"] == "mixed_specs":
+                    from formulaic import ModelSpecs
+
+                    def leaf_(s_):
+                        return next(iter(s_._flatten())) if hasattr(s_, "_flatten") else s_
+
+                    ms_ = ModelSpecs(a=leaf_(pool.spec(op["a"])).update(na_action=op["na"][0]), b=leaf_(pool.spec(op["b"])).update(na_action=op["na"][1]))
+                    res = ms_.get_model_matrix(pool.frame(op["d"]), drop_rows=drop, context=pool.context())
                 elif op["op"] == "replay":
                     res = pool.spec(op["spec"]).get_model_matrix(pool.frame(op["d"]), drop_rows=drop, context=pool.context())
                 else:
